@@ -37,6 +37,20 @@ inline EdgeList graph_from_mask(int n, uint64_t mask) {
 }
 inline uint64_t num_graphs(int n) { return 1ull << (n * (n - 1) / 2); }
 
+// S(n, M): every labelled simple graph on n vertices with AT MOST M edges, ranked by (edge count, combination rank) -
+// sparse graphs on more vertices than G(n) can afford (many components, isolated vertices, n > m + 2)
+inline uint64_t binom(int a, int b) { if (b < 0 || b > a) return 0; uint64_t r = 1; for (int i = 1; i <= b; ++i) r = r * (uint64_t) (a - b + i) / (uint64_t) i; return r; }
+inline uint64_t num_sparse_graphs(int n, int M) { int P = n * (n - 1) / 2; uint64_t t = 0; for (int k = 0; k <= M && k <= P; ++k) t += binom(P, k); return t; }
+inline EdgeList sparse_graph(int n, int M, uint64_t idx) {
+    int P = n * (n - 1) / 2, k = 0;
+    while (k <= M && idx >= binom(P, k)) { idx -= binom(P, k); ++k; }
+    EdgeList g; g.n = n; auto p = all_pairs(n);
+    // unrank combination number idx of k out of P (lexicographic)
+    int x = 0;
+    for (int left = k; left > 0; --left) { while (binom(P - x - 1, left - 1) <= idx) { idx -= binom(P - x - 1, left - 1); ++x; } g.e.push_back(p[x]); ++x; }
+    return g;
+}
+
 inline uint64_t ipow(uint64_t b, int e) { uint64_t r = 1; while (e-- > 0) r *= b; return r; }
 
 inline uint64_t lcg_next(uint64_t &st) { st = st * 6364136223846793005ull + 1442695040888963407ull; return st >> 33; }
